@@ -334,10 +334,42 @@ func c04BinaryKeys(cs c04Case) (wd []disc, pages, want int) {
 	return keep, pages, want
 }
 
+const c04Many = 1003
+
+var c04ManyQueries = [][]string{{"prefix", "big/", "delimiter", "/"}, {"prefix", "big/"}, {"prefix", "big/", "delimiter", "/", "max-keys", "1000"}, {"list-type", "2", "prefix", "big/", "delimiter", "/", "start-after", "big/"},
+	{"list-type", "2", "prefix", "big/", "delimiter", "/", "max-keys", "5"}, {"prefix", "big/", "delimiter", "/", "marker", "big/k0000", "max-keys", "3"}}
+
+func c04ManyStack(k backends.Kind) *backends.Stack {
+	st := backends.Must(k, backends.Options{})
+	ensureBucket(st, "bk0")
+	for i := 0; i < c04Many; i++ {
+		if r := put(st, "bk0", fmt.Sprintf("big/k%04d", i), []byte("x")); r.Status != 200 {
+			panic("harness: " + r.String())
+		}
+	}
+	return st
+}
+
+func c04FallbackMany(st *backends.Stack, q []string) []disc {
+	doc, r := listDoc(st, "bk0", q...)
+	switch {
+	case doc == nil:
+		return dsc("page-failed", "backend=%s %d keys at one level, request %v: %s", st.Kind, c04Many, q, r)
+	case doc.IsTruncated || len(doc.Contents) != c04Many:
+		return dsc("fallback-incomplete", "backend=%s %d keys at one level, request %v: %d entries, IsTruncated=%v; a backend without paging answers with the complete listing", st.Kind, c04Many, q, len(doc.Contents), doc.IsTruncated)
+	}
+	return nil
+}
+
 func c04Replay(check string, raw json.RawMessage) ([]disc, error) {
 	var cs c04Case
 	if err := json.Unmarshal(raw, &cs); err != nil {
 		return nil, err
+	}
+	if check == "fallback-many" {
+		st := c04ManyStack(cs.Backend)
+		defer st.Close()
+		return c04FallbackMany(st, strings.Fields(cs.API)), nil
 	}
 	st := backends.Must(cs.Backend, cs.Opts)
 	defer st.Close()
@@ -363,6 +395,7 @@ func c04Replay(check string, raw json.RawMessage) ([]disc, error) {
 		wd, _, _ := c04BinaryKeys(cs)
 		return wd, nil
 	}
+
 	ds, _, _, _ := c04Check(st, cs)
 	return ds, nil
 }
@@ -520,6 +553,19 @@ func c04Run(t *testing.T, c *evid.Collector) {
 				}
 				st.Close()
 			}
+		}
+	}
+
+	// ---- more entries at one level than a page holds (1000): a backend without paging still answers
+	// with all of them, not truncated, whatever page size or position the request names
+	if evid.Shard() == 0 {
+		for _, k := range kindsFromEnv([]backends.Kind{backends.Bolt, backends.MultiMem, backends.SingleMem}) {
+			st := c04ManyStack(k)
+			for _, q := range c04ManyQueries {
+				cs := c04Case{Backend: k, Keys: []string{fmt.Sprintf("(%d keys big/k0000 …)", c04Many)}, Prefix: "big/", MaxKeys: c04Many, API: strings.Join(q, " ")}
+				record("fallback-many", cs, c04FallbackMany(st, q), 1, c04Many, false, "fallback-many")
+			}
+			st.Close()
 		}
 	}
 
